@@ -107,9 +107,13 @@ class Report:
             json.dump(ev, f, indent=1, default=str)
         for kid, (k, cnt) in sorted(self.known_hits.items()):
             print("KNOWN-FINDING: property=%s %s [%s, %d occurrence(s) this run]" % (self.prop, k["what"], kid, cnt))
-        if machinery_error:
+        if machinery_error and not self.violations:
             print("MACHINERY-ERROR property=%s %s" % (self.prop, str(machinery_error)[:3000]))
             return 2
+        if machinery_error:
+            # clause violations judged on real executions were recorded before a later stage of the
+            # machinery failed (typically a self-test that needs accepted traces): they stand
+            print("NOTE property=%s a later stage of the check failed: %s" % (self.prop, str(machinery_error)[:500]))
         if self.violations:
             seen = {}
             for v in self.violations:
